@@ -480,8 +480,10 @@ def collect_programs(fa, tname, rnd, ngen):
     ]
     if ct is not None:
         directed += [
-            ("complex-typed-long-literals", lambda ctx, z: z * ctx.constant(1 / 3, z) + ctx.constant(math.pi, z) - ctx.constant(0.6931471805599453, z) * z, [ct]),
-            ("complex-typed-long-literals-wide", lambda ctx, z: z * ctx.constant(1 / 3, z) + ctx.constant(math.pi, z) - ctx.constant(-1.2345678901234567, z) * z, [ct64]),
+            # sums only: the C++ reference does not model complex * complex (libgcc __mulsc3)
+            ("complex-typed-long-literals", lambda ctx, z: (z + ctx.constant(1 / 3, z)) + (ctx.constant(math.pi, z) - z) - ctx.constant(0.6931471805599453, z), [ct]),
+            ("complex-typed-long-literals-wide", lambda ctx, z: (z + ctx.constant(1 / 3, z)) + (ctx.constant(math.pi, z) - z) - ctx.constant(-1.2345678901234567, z), [ct64]),
+            ("complex-typed-long-literal-single", lambda ctx, z: z + ctx.constant(1 / 3, z), [ct64]),
             ("complex-constant-long-parts", lambda ctx, z: z + ctx.constant(complex(1 / 3, -math.pi), z), [ct64]),
             ("complex-constant-inf-part", lambda ctx, z: z + ctx.constant(complex(math.inf, -0.0), z), [ct]),
             ("complex-constant-neginf-nan-parts", lambda ctx, z: z + ctx.constant(complex(-math.inf, 3.0), z) + ctx.constant(complex(0.0, -math.inf), z), [ct]),
